@@ -383,6 +383,9 @@ def register(hub, props=("C05", "C06")):
                     v6(MW, call, f"write:entry-outside-region-changed{tag}", **w)
                     v5(call, f"entry-outside-region-changed{tag}", **w)
                     return
+        # the target must not end up sharing memory with an array source (a later assignment into either would change the other)
+        if isinstance(rhs, fd.FlodymArray) and rhs is not target and isinstance(rhs.values, np.ndarray) and rhs.values.size and np.shares_memory(target.values, rhs.values):
+            v5(call, "target-shares-memory-with-the-assigned-array", key=keyrepr(key), target_dims=list(xs.letters), source_dims=list(rhs_pre.letters) if isinstance(rhs_pre, Snap) else None)
         # ndarray sources are copied
         if isinstance(rhs, np.ndarray) and rhs.size and rhs.flags.writeable:
             if np.shares_memory(target.values, rhs):
